@@ -91,6 +91,10 @@ enum onetbb_verif_id {
     vp_pipe_grow                 = 111, // arg: new size
     vp_pipe_try_spawn_next       = 112,
     vp_pipe_token_release        = 113,
+    vp_pipe_input_token          = 114, // input token taken, next input task not yet spawned
+    vp_pipe_recycle              = 115, // token returned, before the end_of_input check / recycle
+    vp_pipe_put_token            = 116, // before array_mutex in try_put_token (arrival-order race)
+    vp_pipe_wakee                = 117, // between unlocking the buffer and spawning the woken stage task
     // --- mutexes ---
     vp_qm_enqueued               = 120, // queuing_mutex: after the tail exchange; obj: mutex, arg: scoped_lock address
     vp_qm_release                = 121,
@@ -103,6 +107,8 @@ enum onetbb_verif_id {
     vp_cq_page_switch            = 131, // under page_mutex
     vp_cq_pop_wait_item          = 132, // pop waits for the item of its ticket to be written
     vp_cq_pop_ticket             = 133, // pop ticket taken
+    vp_cq_item_written           = 134, // push: item constructed, not yet published (mask bit / tail counter)
+    vp_cq_alloc_failed           = 135, // push: page allocation threw, lane not yet invalidated
     // --- hash map ---
     vp_chm_rehash_bucket         = 140,
     vp_chm_mask_race             = 141, // arg: 1 restarted
@@ -110,6 +116,7 @@ enum onetbb_verif_id {
     vp_chm_elem_lock_backoff     = 143,
     vp_chm_enable_segment        = 144,
     vp_chm_erase_unlinked        = 145, // between unlink and the element lock
+    vp_chm_mask_loaded           = 146, // mask read, bucket not yet acquired
     // --- vector ---
     vp_cv_range_claimed          = 150, // range claimed, before allocation/construction
     vp_cv_first_block            = 151, // first block election, arg: 1 winner
@@ -150,6 +157,10 @@ enum onetbb_verif_id {
     vp_reduce_split_body         = 203,
     vp_reduce_join               = 204,
     vp_scan_pass                 = 205, // arg: 0 pre-pass, 1 final
+    vp_scan_stolen               = 206, // start_scan::execute: treat_as_stolen decision in arg
+    vp_scan_finish               = 207, // finish_scan before loading the right zombie
+    vp_sort_pretest              = 208, // between the pre-test loop and the cancellation check
+    vp_part_auto_demand          = 209, // auto_partition_type::check_for_demand
     // --- tbbmalloc ---
     vp_tm_public_free_push       = 210,
     vp_tm_privatize              = 211,
